@@ -180,10 +180,10 @@ func coqScript(s []resp) string {
 }
 
 type obs struct {
-	out                        []byte
-	tok                        byte
+	out                       []byte
+	tok                       byte
 	nread, drawn, calls, reqs int
-	err                        error
+	err                       error
 }
 
 func isNumCh(b byte) bool {
@@ -610,6 +610,9 @@ func apiStream(r *vh.Rng, n int, maxOff int, sum *vh.Summary) {
 			to.StringKeys = true
 		}
 		t := vh.RandType(r, to, 0)
+		if r.Chance(1, 5) { // string-keyed maps without a fast path, nested ones
+			t = mapKeyTypes[r.Intn(len(mapKeyTypes))]
+		}
 		v := vh.RandValue(r, t, vh.ValOpts{BigLens: true, NoNaN: format == "json", NoInf: format == "json", MaxLen: 5})
 		he := vh.NewHandle(format, o)
 		var b []byte
@@ -821,15 +824,172 @@ func apiStream(r *vh.Rng, n int, maxOff int, sum *vh.Summary) {
 	}
 }
 
+// ---- map-key stream ----
+//
+// String map keys are views into the buffered reader's buffer until the decoder
+// detaches them; the read of the value that follows may slide/refill the buffer.
+// Types here have string(-like) keys and are NOT served by a fast path (struct,
+// named, pointer, array, nested-map values), so the reflection kMap runs.
+// For short encodings every one-split, two-split and fixed-size chunk schedule
+// is run for ReaderBufferSize {1, 2, 7, 16, 64, 4096}.
+
+type mkVal struct {
+	N int
+	S string
+}
+type mkStr string
+type mkWrap struct {
+	A map[string]mkVal
+	B int
+	C map[mkStr]mkStr
+}
+
+var mapKeyTypes = []reflect.Type{
+	reflect.TypeOf(map[string]mkVal(nil)),
+	reflect.TypeOf(map[string]mkStr(nil)),
+	reflect.TypeOf(map[string]*mkVal(nil)),
+	reflect.TypeOf(map[mkStr]mkVal(nil)),
+	reflect.TypeOf(map[string][2]int8(nil)),
+	reflect.TypeOf(map[string]map[string]mkVal(nil)),
+	reflect.TypeOf([]map[string]mkVal(nil)),
+	reflect.TypeOf(map[interface{}]mkVal(nil)),
+	reflect.TypeOf(mkWrap{}),
+	reflect.TypeOf(map[string][]mkStr(nil)),
+}
+
+func mapKeyStream(r *vh.Rng, n int, maxLen int, sum *vh.Summary) {
+	bufsizes := []int{1, 2, 7, 16, 64, 4096}
+	for i := 0; i < n; i++ {
+		format := vh.Formats[i%len(vh.Formats)]
+		o := vh.Opts{}
+		if i >= 2*len(vh.Formats) {
+			o = vh.RandEncOpts(r, format)
+		}
+		var t reflect.Type
+		var v reflect.Value
+		if i < len(vh.Formats) { // a fixed instance first: long key, short key, struct values
+			t = mapKeyTypes[0]
+			v = reflect.ValueOf(map[string]mkVal{"alphabet": {N: 1, S: "first-value"}, "k": {N: 2, S: "v"}})
+		} else {
+			t = mapKeyTypes[r.Intn(len(mapKeyTypes))]
+		}
+		var b []byte
+		for try := 0; try < 20; try++ {
+			if i >= len(vh.Formats) {
+				v = vh.RandValue(r, t, vh.ValOpts{NoNaN: true, NoInf: true, MaxLen: 1 + r.Intn(3), NoNilPtr: true})
+			}
+			b = nil
+			if err := codec.NewEncoderBytes(&b, vh.NewHandle(format, o)).Encode(v.Interface()); err != nil {
+				b = nil
+				continue
+			}
+			if len(b) >= 4 && (len(b) <= maxLen || i < len(vh.Formats)) {
+				break
+			}
+			b = nil
+		}
+		if b == nil {
+			sum.Count("mapkey.skipped", "")
+			continue
+		}
+		mkHandle := func(rbs int) codec.Handle {
+			oo := vh.Opts{}
+			for k, x := range o {
+				oo[k] = x
+			}
+			oo["ReaderBufferSize"] = rbs
+			return vh.NewHandle(format, oo)
+		}
+		h0 := mkHandle(0)
+		want := decodeWith(func() *codec.Decoder { return codec.NewDecoderBytes(b, h0) }, t)
+		if want.err != nil || want.hung {
+			sum.Count("mapkey.bytes-decode-error", "")
+			continue
+		}
+		cj := map[string]interface{}{"format": format, "opts": o.String(), "type": t.String(), "bytes": vh.Hex(b), "seed_index": i}
+		var schedules [][]resp
+		for k := 1; k < len(b); k++ {
+			schedules = append(schedules, []resp{{k, false}}) // one split: k bytes, then the rest
+			fixed := make([]resp, 0, len(b)/k+1)              // k-byte chunks throughout
+			for x := 0; x < len(b); x += k {
+				fixed = append(fixed, resp{k, false})
+			}
+			schedules = append(schedules, fixed)
+			for j := 1; j < k; j++ { // two splits: j, k-j, then the rest
+				schedules = append(schedules, []resp{{j, false}, {k - j, false}})
+			}
+		}
+		runs, failed := 0, false
+		for _, rbs := range bufsizes {
+			h := mkHandle(rbs)
+			for si, sc := range schedules {
+				rbr := (si+i)%5 == 0
+				runs++
+				got := decodeWith(func() *codec.Decoder { rd, _ := mkReader(b, sc, io.EOF, rbr); return codec.NewDecoder(rd, h) }, t)
+				what := ""
+				switch {
+				case got.hung:
+					what = "Decode from the reader did not return"
+				case got.err != nil:
+					what = "Decode from the reader fails where Decode from []byte succeeds"
+				case !vh.DeepEq(got.v, want.v, vh.EqOpts{}):
+					what = "Decode from the reader gives a different value than Decode from []byte"
+				case got.n != want.n:
+					what = "NumBytesRead differs between reader and []byte"
+				}
+				if what != "" {
+					c2 := map[string]interface{}{"ReaderBufferSize": rbs, "bytereader": rbr}
+					for k, x := range cj {
+						c2[k] = x
+					}
+					var ks []interface{}
+					for _, x := range sc {
+						ks = append(ks, x.k)
+					}
+					c2["chunks_then_rest"] = ks
+					if got.err == nil && !got.hung {
+						c2["io_value"] = fmt.Sprintf("%#v", got.v.Interface())
+						c2["bytes_value"] = fmt.Sprintf("%#v", want.v.Interface())
+					}
+					binjson := "binary"
+					if format == "json" {
+						binjson = "json"
+					}
+					sum.FailC("mapkey", fmt.Sprintf("%s:%s:string-keyed-map:buffered:chunk-schedule", binjson, format), what, c2)
+					failed = true
+					if got.hung {
+						sum.Print()
+						os.Exit(0)
+					}
+					break
+				}
+			}
+			if failed {
+				break
+			}
+		}
+		key := fmt.Sprintf("%s/%s/len%d", format, t.String(), len(b)/4)
+		sum.Count("mapkey."+format, key)
+		sum.Evaluations += runs - 1
+		sum.Dist["mapkey.reader-runs"] += runs
+		if i < 1 {
+			sum.Sample(cj)
+		}
+	}
+}
+
 func main() {
 	nUnit := flag.Int("unit", 600, "unit cases (model-compared)")
 	nAPI := flag.Int("api", 150, "api cases")
+	nMapKey := flag.Int("mapkeys", 40, "map-key cases (every one-/two-split schedule x 6 buffer sizes)")
+	mapKeyLen := flag.Int("mapkeylen", 40, "longest encoding used by the map-key stream")
 	maxOff := flag.Int("offsets", 48, "inputs up to this length get a chunk boundary / truncation at every offset")
 	cases := flag.String("cases", "/verif/build/c03/cases", "directory for the model case files")
 	flag.Parse()
 	r := vh.NewRng(vh.SeedFromEnv())
-	sum := vh.NewSummary("unit: random protocol-respecting decReaderI op lists x ReaderBufferSize {0,1,2,3,7,16,64,256,300} x MaxInitLen x plain/ByteReader x reader scripts (1-byte, chunks, zero-length runs below and above 16, data with EOF, terminal EOF or error); non-trivial = has a script or >= 8 bytes; distinct by (mode, reader shape, buffer size, last op, error class, Read calls, numread/4). api: 5 formats x random type/value/options x target (typed, Raw, interface{}) x ReaderBufferSize x reader shapes (all-at-once, 1-byte, random chunks with empty reads, data with EOF, two chunks at every offset, iotest One/Half/DataErr/Timeout readers, plain and ByteReader) x truncation at every offset with 4 endings; distinct by (format, target, kind, length/8)")
+	sum := vh.NewSummary("unit: random protocol-respecting decReaderI op lists x ReaderBufferSize {0,1,2,3,7,16,64,256,300} x MaxInitLen x plain/ByteReader x reader scripts (1-byte, chunks, zero-length runs below and above 16, data with EOF, terminal EOF or error); non-trivial = has a script or >= 8 bytes; distinct by (mode, reader shape, buffer size, last op, error class, Read calls, numread/4). api: 5 formats x random type/value/options x target (typed, Raw, interface{}) x ReaderBufferSize x reader shapes (all-at-once, 1-byte, random chunks with empty reads, data with EOF, two chunks at every offset, iotest One/Half/DataErr/Timeout readers, plain and ByteReader) x truncation at every offset with 4 endings; distinct by (format, target, kind, length/8). mapkey: 5 formats x string-keyed map types without a fast path (struct, named, pointer, array, nested-map values, named and interface keys, inside slices/structs) x every one-split, two-split and fixed-size chunk schedule of encodings up to -mapkeylen bytes x ReaderBufferSize {1,2,7,16,64,4096}, plain and ByteReader; distinct by (format, type, length/4)")
 	unitStream(r.Fork(), *nUnit, *cases, sum)
 	apiStream(r.Fork(), *nAPI, *maxOff, sum)
+	mapKeyStream(r.Fork(), *nMapKey, *mapKeyLen, sum)
 	sum.Print()
 }
